@@ -170,7 +170,7 @@ pub fn coalesce(v: Vec<Norm>) -> Vec<Norm> {
 // strategies
 
 pub fn name_strategy() -> impl Strategy<Value = String> {
-    prop::sample::select(vec!["a", "b", "ab", "a:b", "p:q", "_x", "x-1", "x.y", "\u{e9}l\u{e9}ment", "\u{4e2d}", "xmlns", "A", "root", "very-long-element-name"]).prop_map(|s| s.to_string())
+    prop::sample::select(vec!["a", "b", "ab", "a:b", "p:q", "_x", "x-1", "x.y", "\u{e9}l\u{e9}ment", "\u{4e2d}", "xmlns", "A", "root", "very-long-element-name", "n123456789012345", "n1234567890123456", "a-name-that-is-longer-than-thirty-two-bytes", "a.name.that.is.longer.than.sixty-four.bytes.so.that.block.wise.scanners.iterate"]).prop_map(|s| s.to_string())
 }
 
 /// markup-heavy payload strings
@@ -180,7 +180,18 @@ pub fn payload_strategy() -> impl Strategy<Value = String> {
         1 => any::<char>().prop_filter("no U+FEFF (a leading one is a byte-order mark and is stripped by the reader)", |c| *c != '\u{feff}').prop_map(|c| c.to_string()),
         1 => "[a-z ]{0,8}",
     ];
-    prop::collection::vec(piece, 0..8).prop_map(|v| v.concat())
+    prop_oneof![
+        30 => prop::collection::vec(piece.clone(), 0..8).prop_map(|v| v.concat()),
+        // long payloads (past scanner block sizes and initial capacities)
+        1 => (prop::collection::vec(piece, 1..4), prop::sample::select(vec![16usize, 17, 31, 33, 64, 65, 129, 300])).prop_map(|(v, n)| {
+            let unit = v.concat();
+            let mut out = String::new();
+            while out.chars().count() < n {
+                out.push_str(if unit.is_empty() { "x" } else { &unit });
+            }
+            out
+        }),
+    ]
 }
 
 fn without(s: String, needles: &[&str]) -> String {
@@ -239,7 +250,7 @@ pub fn ops_strategy() -> impl Strategy<Value = Vec<StartOp>> {
         2 => name_strategy().prop_map(StartOp::SetName),
         1 => Just(StartOp::Clear),
     ];
-    prop::collection::vec(op, 0..5)
+    prop_oneof![20 => prop::collection::vec(op.clone(), 0..5), 1 => prop::collection::vec(op, 20..45)]
 }
 
 pub fn decl_strategy() -> impl Strategy<Value = EvSpec> {
